@@ -54,4 +54,19 @@ def handleWavRead (args : List String) : String :=
     | none => "bad-op"
   | _ => "bad-op"
 
+/-- `tapename <explicit code points | none> <output path code points | none> <source file code points>`
+    → code points of the tape name -/
+def handleTapeName (args : List String) : String :=
+  let dec (t : String) : Option (Option (List Char)) :=
+    if t == "none" then some none else (parseNatList t).map (fun l => some (l.map Char.ofNat))
+  match args with
+  | [e, p, src] => match dec e, dec p, parseNatList src with
+    | some e, some p, some src =>
+      let wp := match p with
+        | some q => q            -- (the path operand, resolved; only its file name matters)
+        | none => Pdpy11.Model.Container.defaultWavPath (src.map Char.ofNat)
+      showNatList ((Pdpy11.Model.Container.tapeName e wp).map Char.toNat)
+    | _, _, _ => "bad-op"
+  | _ => "bad-op"
+
 end Pdpy11.Driver
